@@ -1,6 +1,7 @@
 package rules
 
 import (
+	"go/constant"
 	"bytes"
 	"fmt"
 	"go/ast"
@@ -32,6 +33,17 @@ func boolCut(match func(n *core.Node, v ssa.Value) bool, want bool) EdgeCut {
 			return false
 		}
 		v, neg := stripNot(ifi.Cond)
+		// a predicate helper (`func (d *T) busy() bool { return d.flag }`) is the expression it returns,
+		// unless the rule is about the call itself
+		if !match(n, v) {
+			if body, ok := predicateBody(v); ok {
+				v2, n2 := stripNot(body)
+				v = v2
+				if n2 {
+					neg = !neg
+				}
+			}
+		}
 		// also accept `v == true/false`
 		if b, ok := v.(*ssa.BinOp); ok && (b.Op == token.EQL || b.Op == token.NEQ) {
 			if cb, ok := core.ConstBool(b.Y); ok {
@@ -99,6 +111,13 @@ func NilCut(match func(v ssa.Value) bool, wantNil bool) EdgeCut {
 			return false
 		}
 		v, neg := stripNot(ifi.Cond)
+		if body, ok := predicateBody(v); ok {
+			v2, n2 := stripNot(body)
+			v = v2
+			if n2 {
+				neg = !neg
+			}
+		}
 		b, ok := v.(*ssa.BinOp)
 		if !ok || (b.Op != token.EQL && b.Op != token.NEQ) {
 			return false
@@ -132,6 +151,13 @@ func CmpCut(decide func(n *core.Node, op token.Token, x, y ssa.Value) int) EdgeC
 			return false
 		}
 		v, neg := stripNot(ifi.Cond)
+		if body, ok := predicateBody(v); ok {
+			v2, n2 := stripNot(body)
+			v = v2
+			if n2 {
+				neg = !neg
+			}
+		}
 		b, ok := v.(*ssa.BinOp)
 		if !ok {
 			return false
@@ -567,4 +593,111 @@ func reachesBlock(from, to *ssa.BasicBlock) bool {
 		return false
 	}
 	return walk(from)
+}
+
+// predicateBody: v is a call of a side-effect-free one-expression helper of the
+// repository (`func (d *T) busy() bool { return d.n > 0 }`, a single block that
+// only loads and computes); the result is the returned expression, in the
+// helper's own SSA values. Field-based matchers work on it unchanged.
+func predicateBody(v ssa.Value) (ssa.Value, bool) {
+	call, ok := v.(*ssa.Call)
+	if !ok {
+		return nil, false
+	}
+	cal := call.Call.StaticCallee()
+	if cal == nil || len(cal.Blocks) != 1 || cal.Pkg == nil {
+		return nil, false
+	}
+	if call.Parent() == nil || call.Parent().Pkg == nil || cal.Pkg.Pkg.Path() != call.Parent().Pkg.Pkg.Path() {
+		return nil, false
+	}
+	var ret *ssa.Return
+	for _, in := range cal.Blocks[0].Instrs {
+		switch x := in.(type) {
+		case *ssa.FieldAddr, *ssa.Field, *ssa.IndexAddr, *ssa.Index, *ssa.BinOp, *ssa.Convert, *ssa.ChangeType, *ssa.DebugRef:
+		case *ssa.UnOp:
+			if x.Op == token.ARROW {
+				return nil, false
+			}
+		case *ssa.Lookup:
+		case *ssa.Call:
+			if b, isB := x.Call.Value.(*ssa.Builtin); !isB || (b.Name() != "len" && b.Name() != "cap") {
+				return nil, false
+			}
+		case *ssa.Return:
+			ret = x
+		default:
+			return nil, false
+		}
+	}
+	if ret == nil || len(ret.Results) != 1 {
+		return nil, false
+	}
+	return ret.Results[0], true
+}
+
+// formatArms resolves a dispatch on Inst.FormatType (or Format.FormatType): for every
+// FormatType constant of the insts package, the functions of root's package that the
+// arm of that format can call, transitively. Branches on the format are decided with
+// opReach, every other branch is explored.
+func formatArms(c *core.Ctx, root *ssa.Function) map[string]map[*ssa.Function]bool {
+	out := map[string]map[*ssa.Function]bool{}
+	ip := c.SSAPkg(instsPkg)
+	if root == nil || ip == nil {
+		return out
+	}
+	isFmt := isLoadOfField("FormatType")
+	scope := ip.Pkg.Scope()
+	for _, n := range scope.Names() {
+		k, ok := scope.Lookup(n).(*types.Const)
+		if !ok || namedTypeName(k.Type()) != "insts.FormatType" {
+			continue
+		}
+		v, exact := constant.Int64Val(k.Val())
+		if !exact {
+			continue
+		}
+		set := map[*ssa.Function]bool{}
+		var add func(fn *ssa.Function)
+		add = func(fn *ssa.Function) {
+			if fn == nil || fn.Pkg != root.Pkg || set[fn] {
+				return
+			}
+			set[fn] = true
+			for _, b := range fn.Blocks {
+				for _, in := range b.Instrs {
+					if cc := core.CallOf(in); cc != nil {
+						add(cc.StaticCallee())
+					}
+				}
+			}
+		}
+		for _, b := range opReach(root, isFmt, v) {
+			for _, in := range b.Instrs {
+				if cc := core.CallOf(in); cc != nil {
+					add(cc.StaticCallee())
+				}
+			}
+		}
+		out[n] = set
+	}
+	return out
+}
+
+// condField: the struct field a branch condition loads, through negations and
+// one-expression predicate helpers (`if d.busy()` with `busy() bool { return d.flag }`).
+// The polarity is not reported: callers that need it use BoolFieldCut.
+func condField(v ssa.Value) *types.Var {
+	for i := 0; i < 4; i++ {
+		v, _ = stripNot(v)
+		if f := core.LoadedField(v); f != nil {
+			return f
+		}
+		body, ok := predicateBody(v)
+		if !ok {
+			return nil
+		}
+		v = body
+	}
+	return nil
 }
